@@ -123,6 +123,7 @@ func (q *UdpTaskQueue) popReadyTask() (UdpTask, bool) {
 		return task, true
 	default:
 	}
+	verifYield("convoy.popov", q)
 	return q.popOverflowTask()
 }
 
